@@ -185,7 +185,7 @@ PERMS = {1: ['0'], 2: ['1,0'], 3: ['2,0,1', '1,2,0'], 4: ['3,1,0,2']}
 INFO['C02'] = {
     'bounds': 'per-layer obligations over the probe backend (uninterpreted function of the coordinate, call recorder): '
               'N and M independently in 1..4 (quick: 5 pairs, thorough: 16), coordinate scalars int/unsigned/size_t/float/double '
-              'where the layer admits them; every coordinate value (NaN excluded), every configuration value; '
+              'where the layer admits them; every coordinate value (NaN excluded), every configuration value; the vector type itself (covfie::array::array, sizes 1..4: fill / C-array / variadic / copy constructors, element access, size, iteration; a constant backend configured through the fill constructor); '
               'composition for deeper stacks by induction over the stack (stated) plus fixed stacks of depth 3-5 checked directly; pairwise adjacency over the REAL layers: each of clamp, backup, shuffle, covariant_cast, dereference, nearest_neighbour directly above each of strided, Morton (both variants), Hilbert, clamp, backup, shuffle, cast, dereference (each over strided<array>, 3x2 storage, symbolic contents/configuration) and constant; linear above each of those (bit-identical to linear above a plain row-major array of the values the layer reports; every cell, quarter-cell offsets, symbolic contents); affine above nearest/linear over clamped layouts (symbolic matrix and coordinate, |.|<=8): W<X>.at equals the definition of W applied to the view X itself gives of the same storage',
     'outside': 'N or M above 4; NaN coordinates; stacks deeper than 5 (covered only by the induction argument)',
     'cuts': 'probe backend = uninterpreted function per output component; equality of results is bit-for-bit',
@@ -261,6 +261,8 @@ def layer_units(tier, layers):
                       sites=[1, 2], diff=(n == 3))
             U += unit(f'c02_viewforms_{n}_{m}', H, f'viewforms_h<{n},{m},{"float" if m % 2 else "size_t"},float>()', sites=[1, 2, 3],
                       diff=(n == 3))
+        for n, t in ((1, 'float'), (2, 'double'), (3, 'size_t'), (4, 'float'), (4, 'double'), (3, 'int'), (2, 'unsigned')):
+            U += unit(f'c02_vec_{n}_{t}', H, f'vec_h<{n},{t}>()', sites=[1, 2, 3, 4], diff=(n == 4 and t == 'float'), flavours=('rel', 'dbg') if n == 4 else ('rel',))
         for n in (1, 2, 3, 4):
             U += unit(f'c02_identity_{n}', H, f'identity_h<{n},{["float", "size_t", "double", "int"][n - 1]}>()', sites=[1], diff=(n == 2))
     if 'nn' in layers:
